@@ -5,7 +5,11 @@
    Python exceptions are explicit [Err] results.  Keys of sequence diffs must be ints: a str key makes
    Python raise TypeError (str + int, or sorted() over a mixed set); the model says so up front. *)
 From Coq Require Import List NArith ZArith Bool Lia.
-From NB Require Import Base.Res Base.Json Diff.DiffFormat Diff.Patch Gen.MergeFacts.
+From NB Require Import Base.Res.
+From NB Require Import Base.Json.
+From NB Require Import Diff.DiffFormat.
+From NB Require Import Diff.Patch.
+From NB Require Import Gen.MergeFacts.
 Import ListNotations.
 
 (* a Python set of ints that is later sorted: kept as a strictly increasing list *)
